@@ -30,3 +30,27 @@ package contracts
 //@ extern func errors.Is(err error, target error) (r bool)
 //@   pure
 //@   ensures (err == target) ==> r
+
+// math/rand: the value of the last draw is kept in a ghost global so that contracts can refer to it.
+//@ ghost global randLast mathint
+//@ extern func rand.Intn(n int) (r int)
+//@   requires n > 0
+//@   modifies randLast
+//@   ensures 0 <= r && r < n && randLast == r
+
+//@ extern func rand.Seed(seed int64)
+
+//@ extern func time.Now() (t time.Time)
+//@ extern func (t time.Time) UTC() (r time.Time)
+//@   pure
+//@ extern func (t time.Time) UnixNano() (r int64)
+//@   pure
+
+// crypto/subtle.XORBytes (assembly): n = min(len(x), len(y)); dst[i] = x[i]^y[i] for i < n, computed from the values
+// before the call (dst may overlap x or y exactly); panics when dst is shorter than n; writes nothing else.
+//@ extern func subtle.XORBytes(dst []byte, x []byte, y []byte) (n int)
+//@   requires len(dst) >= min(len(x), len(y))
+//@   modifies dst[*]
+//@   ensures n == min(len(x), len(y))
+//@   ensures forall i mathint :: {dst[i]} 0 <= i && i < n ==> dst[i] == old(x[i]) ^ old(y[i])
+//@   ensures forall i mathint :: {dst[i]} n <= i && i < len(dst) ==> dst[i] == old(dst[i])
